@@ -150,7 +150,9 @@ CrashOK(ev) ==
   /\ (Chk("crash10") \/ Chk("crash11") \/ Chk("crash12") \/ Chk("crash22") \/ Chk("crash43")) => ev.ok
   /\ Chk("crash11") => PrefixFrom(st, es, MaxAcked(es))
   /\ Chk("crash43") => PrefixFrom(st, es, MaxAcked(es))
-  /\ Chk("crash12") => PrefixFrom(st, es, 0)      \* only Flush/Close count as acknowledgements (they reset base)
+  \* C12: Flush/Close reset base, so "everything before the Flush survives" is "the recovered state is base plus
+  \* some of the later entries" (C12 does not promise a prefix: that is C11; an ingest may outlive an unflushed commit)
+  /\ Chk("crash12") => SuperOfAcked(st, es)
   /\ Chk("crash10") => SuperOfAcked(st, es)
   /\ (Chk("crash13") /\ ev.dur) => (ev.ok /\ PrefixFrom(st, es, durn))
   (* C40: a crash during RatchetFormatMajorVersion recovers a version between the last one whose ratchet *)
